@@ -106,6 +106,9 @@ def c06_inline(rec):
     if inl.get("bound_viol"):
         v = inl["bound_viol"]
         return {"oracle": "optimal-but-bound-violated", "detail": f"{v[1]} outside {v[2]}={v[3]} by {v[0]}"}
+    if inl.get("con_viol_written"):
+        v = inl["con_viol_written"]
+        return {"oracle": "optimal-but-constraint-as-written-violated", "detail": f"violation {v[0]} of {v[1]}[{v[2]}] as written in the model (optyx's own expression object reports it satisfied)"}
     return None
 
 
@@ -129,4 +132,8 @@ def c07_inline(rec):
             return {"oracle": "objective-value-inconsistent", "detail": f"reported {a} recomputed {b}"}
         elif not num_close(a, b, SELF_RTOL):
             return {"oracle": "objective-value-inconsistent", "detail": f"reported {a!r} recomputed {b!r}"}
+    if "obj_written" in inl and isinstance(obs["obj"], float) and abs(obs["obj"]) < 1e100:
+        a, b = obs["obj"], inl["obj_written"]
+        if isinstance(b, float) and not num_close(a, b, 1e-6):
+            return {"oracle": "objective-value-differs-from-objective-as-written", "detail": f"reported {a!r}, the objective as written in the model gives {b!r} at the returned values"}
     return None
